@@ -774,8 +774,8 @@ func (m *metadataAPI) newPartitionFailoverExpiredHandler(p *partition) failoverE
 }
 
 func (m *metadataAPI) newPartitionFailoverHandler(p *partition) failoverHandler {
-	return func(ctx context.Context) *status.Status {
-		return m.electNewPartitionLeader(ctx, p)
+	return func(ctx context.Context, epoch uint64) *status.Status {
+		return m.electNewPartitionLeader(ctx, p, epoch)
 	}
 }
 
@@ -979,7 +979,7 @@ func (m *metadataAPI) newGroupFailoverExpiredHandler(g *consumerGroup) failoverE
 }
 
 func (m *metadataAPI) newGroupFailoverHandler(g *consumerGroup) failoverHandler {
-	return func(ctx context.Context) *status.Status {
+	return func(ctx context.Context, _ uint64) *status.Status {
 		return m.electNewGroupCoordinator(ctx, g)
 	}
 }
@@ -1725,10 +1725,11 @@ func (m *metadataAPI) getClusterServerIDs() ([]string, error) {
 	return ids, nil
 }
 
-// electNewPartitionLeader selects a new leader for the given partition,
-// applies this update to the Raft group, and notifies the replica set. This
-// will fail if the current broker is not the metadata leader.
-func (m *metadataAPI) electNewPartitionLeader(ctx context.Context, partition *partition) *status.Status {
+// electNewPartitionLeader selects a new leader for the given partition to
+// replace the one with the given leader epoch, applies this update to the Raft
+// group, and notifies the replica set. This will fail if the current broker is
+// not the metadata leader or if the leader has since been replaced.
+func (m *metadataAPI) electNewPartitionLeader(ctx context.Context, partition *partition, leaderEpoch uint64) *status.Status {
 	isr := partition.GetISR()
 	// TODO: add support for "unclean" leader elections.
 	if len(isr) <= 1 {
@@ -1743,6 +1744,11 @@ func (m *metadataAPI) electNewPartitionLeader(ctx context.Context, partition *pa
 			continue
 		}
 		candidates = append(candidates, candidate)
+	}
+
+	if epoch != leaderEpoch {
+		return status.Newf(codes.FailedPrecondition,
+			"Leader generation mismatch, current leader: %s epoch: %d, got epoch: %d", oldLeader, epoch, leaderEpoch)
 	}
 
 	if len(candidates) == 0 {
